@@ -54,6 +54,12 @@ def _spec(module):
             'rules': [lambda units, R: own.own_engine(units, R), own.own5, own.own6, own.own7,
                       lambda units, R: own.own4_dangling(units, R, unit_names=('cJSON.c',)), parse.tab17],
         }]
+    if module == 'tables':
+        from . import parse
+        return [{
+            'units': {'cJSON.c': 'tables_bad.c', 'cJSON_Utils.c': 'utils_min.c'},
+            'rules': [parse.tab4, parse.tab5a, parse.tab6, parse.tab7, parse.c02_structure, parse.c03_structure],
+        }]
     raise AnalysisBroken('no fixture spec for module %s' % module)
 
 
